@@ -638,6 +638,12 @@ class Pointwise:
                 return self.expr(e.args[0], mask)
             if ch in self.UFUNCS and len(e.args) == 2 and not e.keywords:
                 return f"({self.expr(e.args[0], mask)} {self.UFUNCS[ch]} {self.expr(e.args[1], mask)})"
+            if ch in self.UFUNCS and len(e.args) == 2 and {k.arg for k in e.keywords} == {"out", "where"}:
+                # y = np.divide(a, b, out=np.zeros_like(a), where=M): the `out=` array created in place by a filling constructor
+                kws = {k.arg: k.value for k in e.keywords}
+                if isinstance(kws["out"], ast.Call) and attr_chain(kws["out"].func) in FILLED_CTORS:
+                    val = f"({self.expr(e.args[0], mask)} {self.UFUNCS[ch]} {self.expr(e.args[1], mask)})"
+                    return f"(if {self.cond(kws['where'])} then {val} else {self.expr(kws['out'], mask)})"
             if ch in ("np.full", "np.full_like") and len(e.args) == 2:
                 return self.expr(e.args[1], mask)
             if ch in ("np.zeros", "np.zeros_like"):
